@@ -441,8 +441,39 @@ func (m *lMachine) apply(i int, op lOp) {
 		if op.Extra == 1 {
 			ids = []uint64{cfg.Pairs[op.Pair].ID}
 		}
-		if _, err := c.Deliver(liqtypes.NewMsgCancelAllOrders(app, c.Accs[lNumLP+op.Actor].Addr, ids)); err == nil {
+		maker := c.Accs[lNumLP+op.Actor].Addr
+		// orders of this owner that cancel-all must cancel: live, in scope, not in their placement batch
+		var due []liqtypes.Order
+		pairsSeen := map[uint64]bool{}
+		for _, o := range m.k.GetOrdersByOrderer(c.Ctx, app, maker) {
+			if len(ids) == 1 && o.PairId != ids[0] {
+				continue
+			}
+			pr, _ := m.k.GetPair(c.Ctx, app, o.PairId)
+			if isLive(o.Status) && o.BatchId < pr.CurrentBatchId {
+				due = append(due, o)
+				pairsSeen[o.PairId] = true
+			}
+		}
+		if _, err := c.Deliver(liqtypes.NewMsgCancelAllOrders(app, maker, ids)); err == nil {
 			m.ok["cancelall"]++
+			if len(pairsSeen) >= 2 {
+				m.r.Class("cancel-all-over-several-pairs")
+			}
+			if m.prop == "C07" {
+				for _, o := range due {
+					cur, ok := m.k.GetOrder(c.Ctx, app, o.PairId, o.Id)
+					if ok && cur.Status != liqtypes.OrderStatusCanceled {
+						scope := "all-pairs"
+						if len(ids) == 1 {
+							scope = "listed-pairs"
+						}
+						m.fail("C07.cancel-all-cancels-every-order", scope, "step %d: cancel-all by the owner succeeded but order %d of pair %d is still %s", i, o.Id, o.PairId, cur.Status)
+					}
+				}
+			}
+		} else if m.prop == "C07" && len(due) > 0 {
+			m.fail("C07.cancel-by-owner-succeeds", "cancel-all", "step %d: cancel-all of %d cancellable orders failed: %v", i, len(due), err)
 		}
 	case "cancelmm":
 		m.cancelMM(i, op)
